@@ -2,6 +2,7 @@ package main
 
 import (
 	"flag"
+	"go/types"
 	"fmt"
 	"os"
 	"sort"
@@ -20,6 +21,8 @@ func main() {
 		ob := fs.String("ob", "", "substring of obligation name to print query for")
 		repo := fs.String("repo", "/repo", "repository")
 		solve := fs.Bool("solve", false, "solve obligations")
+		t1 := fs.Int("t1", 3, "first-stage timeout")
+		t2 := fs.Int("t2", 10, "second-stage timeout")
 		fs.Parse(os.Args[2:])
 		e, err := newEngine(*repo)
 		if err != nil {
@@ -39,13 +42,25 @@ func main() {
 				continue
 			}
 			if *solve {
-				e.solveAll([]*Oblig{o}, "/tmp/gocv_dump", 5, 20, 16)
+				e.solveAll([]*Oblig{o}, "/tmp/gocv_dump", *t1, *t2, 16)
 			}
 			fmt.Printf("== lemma %s: %-9s %-7s %6.2fs\n", l.Name, o.Status, o.Solver, o.Secs)
 			if *ob != "" && strings.Contains(o.Name, *ob) {
 				fmt.Println(o.fc.query(o))
 			}
 		}
+		defer func() {
+			if os.Getenv("GOCV_TYPEIDS") != "" {
+				if sp := e.spkgs["github.com/akalin/gopar/par2"]; sp != nil {
+					if tn := sp.Pkg.Scope().Lookup("mainPacket"); tn != nil {
+						fmt.Println("containers(*mainPacket):", debugOtype(e, types.NewPointer(tn.Type())))
+					}
+				}
+				for k, v := range e.typeIDs {
+					fmt.Println("typeid", v, k)
+				}
+			}
+		}()
 		var keys []string
 		for k := range e.funcs {
 			if strings.Contains(k, *fn) {
@@ -62,7 +77,7 @@ func main() {
 			fc.translate()
 			fmt.Printf("== %s mode=%s obligations=%d unbound=%v subset=%v notes=%v\n", k, fc.mode, len(fc.obligs), fc.unbound, fc.subset, fc.notes)
 			if *solve {
-				e.solveAll(fc.obligs, "/tmp/gocv_dump", 5, 20, 16)
+				e.solveAll(fc.obligs, "/tmp/gocv_dump", *t1, *t2, 16)
 			}
 			for _, o := range fc.obligs {
 				fmt.Printf("  %-9s %-7s %6.2fs %s  [%s]\n", o.Status, o.Solver, o.Secs, o.Name, o.Pos)
